@@ -103,6 +103,25 @@ fn fold_div_mod_value() {
   }
 }
 
+/// full domain, against Rust's own truncating operators (the same machine operation the target
+/// performs); catches swapped operands / wrong operator / off-by-one adjustments
+#[kani::proof]
+#[kani::unwind(2)]
+fn fold_div_value_is_truncating_quotient() {
+  let a: i32 = kani::any();
+  let b: i32 = kani::any();
+  kani::assume(b != 0 && !(a == i32::MIN && b == -1));
+  assert!(evaluate_bin_op(BinaryOperator::DIV, a, b) == Some(a.wrapping_div(b)));
+}
+#[kani::proof]
+#[kani::unwind(2)]
+fn fold_mod_value_is_truncating_remainder() {
+  let a: i32 = kani::any();
+  let b: i32 = kani::any();
+  kani::assume(b != 0 && !(a == i32::MIN && b == -1));
+  assert!(evaluate_bin_op(BinaryOperator::MOD, a, b) == Some(a.wrapping_rem(b)));
+}
+
 // ---- merge_binary_expression: (x inner.op c1) outer_op c2  ==  x m.op m.e2, for every x
 fn sem_chain(x: i32, inner_op: BinaryOperator, c1: i32, outer_op: BinaryOperator, c2: i32) -> Option<i32> {
   match wasm_sem(inner_op, x, c1) {
